@@ -448,3 +448,63 @@ Example x_nested_rejected :
   c12_nested_step x_cfg x_state (PStr (s2l "news")) (PInt 1) PNone PNone PNone None x_frame_disc
                   ([Out x_e1 x_news; Out x_e2 x_news], [Call 3 [PStr (sid_name 0); PStr (s2l "client disconnect")]], [Out x_e2 x_news]) = false.
 Proof. repeat split; vm_compute; reflexivity. Qed.
+
+(** * 5. Whole histories with re-entrant broadcasts *)
+
+Fixpoint nobs (c : cfg) (s : srv) (ops : list nop) : list seg :=
+  match ops with
+  | [] => []
+  | o :: r => snd (nstep3 c s o) :: nobs c (fst (nstep3 c s o)) r
+  end.
+
+(* plain operations as in C12_run (op_ok, benign event names); the nested operation of a re-entrant
+   broadcast is a packet of some transport (benign) or the loss of that transport *)
+Fixpoint nbenign_ops (c : cfg) (s : srv) (ops : list nop) : Prop :=
+  match ops with
+  | [] => True
+  | o :: r =>
+      match o with
+      | NPlain o' => op_ok o' /\ match o' with
+                                 | EioMessage e p t => benign_event_name c s e p (table_loads t)
+                                 | _ => True end
+      | NEmit _ _ _ _ _ _ _ inner => exists e, offender_op c s e inner
+      end /\ nbenign_ops c (fst (nstep3 c s o)) r
+  end.
+
+Lemma offender_op_ok c s e inner : offender_op c s e inner -> op_ok inner.
+Proof. destruct inner; cbn [offender_op op_ok]; intros H; try contradiction; exact I. Qed.
+
+Lemma nstep3_Inv c s o :
+  cfg_ok c -> Inv s ->
+  match o with NPlain o' => op_ok o' | NEmit _ _ _ _ _ _ _ inner => op_ok inner end ->
+  Inv (fst (nstep3 c s o)).
+Proof.
+  intros Hc HI Hok. destruct o as [o'|ev data to room skip ns k inner]; cbn [nstep3].
+  - destruct (step c s o') as [s1 e1] eqn:Hs. cbn [fst]. replace s1 with (fst (step c s o')) by (rewrite Hs; reflexivity).
+    apply step_Inv; auto.
+  - unfold emit_nested.
+    destruct (emit_sends c s ev data (ns_or_default ns) (first_truthy to room) skip) as [l|x]; [|exact HI].
+    destruct (sends_until (live s) k l) as [pre [rest|]]; [|exact HI].
+    destruct (step c s inner) as [s1 ie] eqn:Hs. cbn [fst]. replace s1 with (fst (step c s inner)) by (rewrite Hs; reflexivity).
+    apply step_Inv; auto.
+Qed.
+
+Theorem nested_run_ok c ops :
+  has_actions c = false -> nbenign_ops c srv_init ops ->
+  nall_steps c srv_init ops (nobs c srv_init ops) = true.
+Proof.
+  intros Hna. assert (Hc := cfg_ok_noact c Hna).
+  assert (G : forall s, Inv s -> nbenign_ops c s ops -> nall_steps c s ops (nobs c s ops) = true).
+  { induction ops as [|o ops IH]; intros s HI Hb; [reflexivity|].
+    cbn [nobs nall_steps]. destruct Hb as [Hb1 Hb2].
+    rewrite IH; [rewrite andb_true_r| |exact Hb2].
+    - destruct o as [o'|ev data to room skip ns k inner].
+      + destruct Hb1 as [Hok Hben]. cbn [nstep3]. destruct (step c s o') as [s1 e1] eqn:Hs. cbn [snd fst].
+        replace e1 with (snd (step c s o')) by (rewrite Hs; reflexivity).
+        destruct o'; try reflexivity. apply C12_frame_local_lemma; auto.
+      + destruct Hb1 as [e Hoff]. apply (nested_broadcast_ok c s ev data to room skip ns k e inner); auto.
+    - apply nstep3_Inv; auto. destruct o as [o'|ev data to room skip ns k inner].
+      + exact (proj1 Hb1).
+      + destruct Hb1 as [e Hoff]. exact (offender_op_ok c s e inner Hoff). }
+  intros Hb. apply G; [apply Inv_init|auto].
+Qed.
